@@ -20,7 +20,9 @@ func NewIndividualNameAndSex(individual *gedcom.IndividualNode) *IndividualNameA
 }
 
 func (c *IndividualNameAndSex) WriteHTMLTo(w io.Writer) (int64, error) {
-	primaryName := c.individual.Names()[0]
+	// This will be nil if the individual does not have a name. That is fine
+	// because all of the methods below handle that.
+	primaryName := c.individual.Name()
 	title := primaryName.Title()
 	prefix := primaryName.Prefix()
 	name := primaryName.GivenName()
